@@ -317,7 +317,51 @@ def _exact_condition(draw, nodes, root, rec, sel_type):
 
 
 @st.composite
+def repeated_application_cases(draw):
+    """One matcher value applied to several directories within one evaluation: sibling directories with overlapping
+    sets of child names, and `every/any file` / `-selection` over them with a nested `dir-contents M` where M is a
+    `matches` condition (full or not) or a quantifier over the children: the verdict for a later directory must not
+    depend on what the earlier ones contained."""
+    pool = draw(st.permutations(['a', 'b', 'ab', 'a.txt', 'e']))[:draw(st.integers(2, 4))]
+    sibs = draw(st.permutations(['A', 'b.d', 'x.y', 'e', 'f.']))[:draw(st.integers(2, 4))]
+    nodes = []
+    for d in sorted(sibs):
+        nodes.append({'p': d, 't': 'd'})
+        for name in draw(st.lists(st.sampled_from(pool), unique=True, max_size=len(pool))):
+            t = draw(st.sampled_from(['f', 'f', 'd']))
+            nodes.append({'p': d + '/' + name, 't': t, 'text': draw(st.sampled_from(TEXTS))} if t == 'f'
+                         else {'p': d + '/' + name, 't': 'd'})
+    if draw(st.booleans()):
+        nodes.append({'p': 'top.txt', 't': 'f', 'text': 'x'})
+    fc = [[n, draw(st.sampled_from([None, None, {'k': 'type', 'v': 'file'}, {'k': 'const', 'v': True}]))]
+          for n in draw(st.lists(st.sampled_from(pool), unique=True, min_size=1, max_size=len(pool)))]
+    inner = draw(st.sampled_from([
+        {'k': 'matches', 'full': False, 'fc': fc, 'inline': draw(st.booleans())},
+        {'k': 'matches', 'full': False, 'fc': fc, 'inline': draw(st.booleans())},
+        {'k': 'matches', 'full': True, 'fc': fc, 'inline': draw(st.booleans())},
+        {'k': 'not', 'x': {'k': 'matches', 'full': False, 'fc': fc, 'inline': False}},
+    ]))
+    per_dir = {'k': 'dircontents', 'rec': None, 'm': inner}
+    shape = draw(st.sampled_from(['every', 'any', 'sel-num', 'sel-empty', 'not-every']))
+    guarded = _guard('dir', per_dir)
+    if shape == 'every':
+        expr = {'k': 'sel', 'fm': {'k': 'type', 'v': 'dir'}, 'm': {'k': 'every', 'fm': per_dir}}
+    elif shape == 'any':
+        expr = {'k': 'any', 'fm': guarded}
+    elif shape == 'sel-num':
+        expr = {'k': 'sel', 'fm': guarded, 'm': {'k': 'numfiles', 'op': draw(st.sampled_from(['==', '>=', '<'])),
+                                                  'n': draw(st.integers(0, len(sibs)))}}
+    elif shape == 'sel-empty':
+        expr = {'k': 'sel', 'fm': guarded, 'm': {'k': 'empty'}}
+    else:
+        expr = {'k': 'not', 'x': {'k': 'sel', 'fm': {'k': 'type', 'v': 'dir'}, 'm': {'k': 'every', 'fm': per_dir}}}
+    return {'tree': nodes, 'via': 'dc', 'path': '', 'rec': None, 'expr': expr, 'repeated': True}
+
+
+@st.composite
 def match_cases(draw, tier='quick'):
+    if draw(st.integers(0, 11)) == 0:
+        return draw(repeated_application_cases())
     nodes = draw(link_trees(max_nodes=10 if tier == 'quick' else 14))
     cyclic = is_cyclic(nodes)
     dirs, others = _dir_access_paths(nodes)
